@@ -215,12 +215,17 @@ func UniqValue(txn int, name string, salt string, n int) []byte {
 }
 
 // SharedOid is the tag-th shared object id. Shared ids share long
-// prefixes pairwise (tag and tag^1 agree on the first 6 bytes) so that the
-// object index needs a long abbreviation.
+// prefixes pairwise (tag and tag^1 agree on the first 6, 16, n-1, 12 or n-2
+// bytes, by pair) so that the object index needs abbreviations of every
+// length up to the full id.
 func SharedOid(tag int, n int) []byte {
 	b := hashBytes(simrt.HashStr(0xabcdef, fmt.Sprint(tag)), n)
 	p := hashBytes(simrt.HashStr(0xabcdef, fmt.Sprint(tag|1)), n)
-	copy(b[:6], p[:6])
+	l := []int{6, 16, n - 1, 12, n - 2}[(tag/2)%5]
+	copy(b[:l], p[:l])
+	if tag&1 == 0 && b[n-1] == p[n-1] {
+		b[n-1] ^= 1 // keep the pair distinct
+	}
 	return b
 }
 
